@@ -290,6 +290,17 @@ static void s_parse_scheme(struct uri_parser *parser, struct aws_byte_cursor *st
     }
 
     const size_t scheme_len = location_of_colon - str->ptr;
+
+    /* A scheme cannot contain a URI delimiter: if one precedes the colon, the text has no scheme and the ":/" found
+     * belongs to a later component (e.g. "host/a:/b" or "host?u=x://y"). */
+    for (size_t i = 0; i < scheme_len; ++i) {
+        const uint8_t c = str->ptr[i];
+        if (c == '/' || c == '?' || c == '#' || c == '@' || c == '[' || c == ']') {
+            parser->state = ON_AUTHORITY;
+            return;
+        }
+    }
+
     parser->uri->scheme = aws_byte_cursor_advance(str, scheme_len);
 
     if (str->len < 3 || str->ptr[0] != ':' || str->ptr[1] != '/' || str->ptr[2] != '/') {
